@@ -20,11 +20,13 @@ theorem C05_bounds_via_shape (g : Geom) : (toShape g).bounds = g.bounds := by
   cases g with
   | timeInterval s e =>
     -- the ring of `box(s, 0, e, MAX)` has the envelope of its two corners
-    simp only [toShape, Shape.bounds, Shape.envPts, Geom.bounds, Geom.boundPts, boxRing, ptsBounds,
-      List.foldl, Option.some.injEq, Bounds.mk.injEq]; grind
+    simp only [toShape, Shape.bounds, Shape.envPts, Geom.bounds, Geom.boundPts, boxRing]
+    rw [ptsBounds_congr_mem _ _ (mem_closeRing _)]
+    simp only [ptsBounds, List.foldl, Option.some.injEq, Bounds.mk.injEq]; grind
   | boundingBox s l e h =>
-    simp only [toShape, Shape.bounds, Shape.envPts, Geom.bounds, Geom.boundPts, boxRing, ptsBounds,
-      List.foldl, Option.some.injEq, Bounds.mk.injEq]; grind
+    simp only [toShape, Shape.bounds, Shape.envPts, Geom.bounds, Geom.boundPts, boxRing]
+    rw [ptsBounds_congr_mem _ _ (mem_closeRing _)]
+    simp only [ptsBounds, List.foldl, Option.some.injEq, Bounds.mk.injEq]; grind
   | polygon rings =>
     -- closing the shell adds no new point
     simp only [toShape, Shape.bounds, Shape.envPts, Geom.bounds, Geom.boundPts, polyOf]
@@ -312,7 +314,7 @@ theorem C05_conversion_box (s l e h t : Rat) :
       ∀ p, p ∈ ring ↔ p ∈ [(s, 0), (s, MAXF), (e, 0), (e, MAXF)]) ∧
     toShape (.timeStamp t) = .lineString [(t, 0), (t, MAXF)] := by
   refine ⟨⟨boxRing s l e h, rfl, ?_⟩, ⟨boxRing s 0 e MAXF, rfl, ?_⟩, rfl⟩ <;>
-  · intro p; simp only [boxRing, List.mem_cons, List.not_mem_nil, or_false]; grind
+  · intro p; simp only [boxRing, mem_closeRing, List.mem_cons, List.not_mem_nil, or_false]; grind
 
 /-! ### features -/
 
